@@ -21,7 +21,9 @@ SPEC = {
         "C15_fanchor_merge_assoc", "C15_anchor_conversions", "C15_cut_midpoint", "C15_cut_area_conserved",
         "C15_cut_area_conserved_inner", "C15_swap_area_partial",
         # one proved negation per listed finding (DESIGN §6.3)
-        "C15_D9_witness", "C15_D15a_witness", "C15_D15d_witness", "C15_D15e_witness", "C15_D15g_witness",
+        "C15_D9_witness", "C15_D15a_witness", "C15_D15d_witness", "C15_D15e_witness",
+        # former finding D15g (fixed in /repo 94962f9): the strict orientation post-check, and the old witness as a regression
+        "C15_orientation_check_strict", "C15_collapse_passed_check", "C15_collapse_no_flat_triangle", "C15_D15g_regression",
         # former findings D15b / D15c (fixed in /repo 27a7433 / aac3ec9): positive theorems
         "C15_cutOuter_second_half_anchored", "C15_cut_midpoint_under_vertex_id", "C15_cutOuter_unit_square_all_orders",
         "C15_cutInner_unit_square_orders",
@@ -33,6 +35,9 @@ SPEC = {
         "C15_cutOuter_face_count", "C15_cutOuter_edge_count", "C15_cutOuter_vertex_count", "C15_cutOuter_vertices",
         "C15_cutInner_face_count", "C15_cutInner_vertex_count", "C15_cutInner_faces", "C15_cutInner_vertices",
         "C15_cutInner_cells", "C15_collapse_midpoint_face_count",
+        # values at dart level (Lemmas/RemeshValues.lean): D9 as a theorem, the midpoint of an inner cut in the final map;
+        # the anchor-driven (end point) collapse on interior configurations
+        "C15_swap_moves_corners", "C15_cutInner_midpoint_in_final_map", "C15_collapse_endpoint_interior",
     ],
     "trusted_base": [
         "Lean 4.33 kernel; axioms propext, Classical.choice, Quot.sound only",
@@ -82,26 +87,34 @@ SPEC = {
             "removed triangle flagged and nothing left outside the mesh unflagged, one orientation around the new vertex; err / retry => map "
             "unchanged. distinct_nontrivial = distinct implementation transcripts.",
     "not_proved": [
-        "global V/E/F count changes for arbitrary meshes: faces for cut_outer_edge are a theorem (C15_cutOuter_cells: iter_faces before/"
-        "after, one face replaced by two); vertex / edge counts, and iter_faces for swap / cut_inner / collapse: oracle only",
-        "`all triangles around the resulting vertex have the same orientation` as a consequence of is_orbit_orientation_consistent on "
-        "arbitrary fans: oracle only (the post-check itself is modelled and compared)",
-        "swap: coordinates/area — FALSE today (D9): C15_D9_witness is the negation on unit_triangles(1); C15_swap_area_partial states what "
-        "does hold; the TOPOLOGY of the swap is a theorem on arbitrary WF maps (C15_swap_topology)",
-        "collapse, well-formedness: UNCONDITIONAL for collapse_edge itself in the midpoint variant (no VertexAnchor storage) on interior "
-        "configurations (C15_collapse_midpoint_interior: no null dart sewn, flagged darts free, six darts flagged, neighbours re-glued, "
-        "frame); for the end-point (anchor-driven) variant and for boundary configurations only C15_collapse_preserves_WF (asserted "
-        "kernel, hypothesis `newly flagged darts are free`) + oracle `wf` after every call",
+        "global V/E/F counts on arbitrary meshes: THEOREMS through the iterators for swap (0/0/0: C15_swap_counts), cut_outer_edge "
+        "(C15_cutOuter_{vertex,edge,face}_count), cut_inner_edge (vertices and faces: C15_cutInner_{vertex,face}_count) and faces of the "
+        "interior midpoint collapse (C15_collapse_midpoint_face_count); NOT proved: edges of cut_inner_edge, vertices / edges of "
+        "collapse_edge, and every count of the end-point collapse and of boundary configurations: oracle only",
+        "`all triangles around the resulting vertex have the same orientation`: the post-check is modelled, compared, and proved STRICT "
+        "(C15_collapse_no_flat_triangle: every triangle of the orbit the kernel walks has a non-zero cross product of one sign, "
+        "former D15g); that the orbit walked is the whole fan fails on pinched results (D15f): oracle",
+        "swap: coordinates/area — FALSE today (D9): C15_D9_witness is the negation on unit_triangles(1), C15_swap_moves_corners the "
+        "general statement (arbitrary WF map with four different corner vertices holding points: the end points keep their values, "
+        "the opposite corners become (C+A)/2 or ((C+A)/2+C)/2); C15_swap_area_partial states what does hold; the TOPOLOGY of the swap "
+        "is a theorem on arbitrary WF maps (C15_swap_topology, vertices: C15_swap_cells)",
+        "collapse, well-formedness: UNCONDITIONAL for collapse_edge itself on interior configurations, in the midpoint variant "
+        "(C15_collapse_midpoint_interior) and in the end-point variant `Left` (C15_collapse_endpoint_interior: six flagged darts free, "
+        "b / c re-glued in place of the neighbours' darts, frame); for `Right` (symmetric, not restated) and for boundary "
+        "configurations only C15_collapse_preserves_WF (asserted kernel, hypothesis `newly flagged darts are free`) + oracle `wf`",
         "collapse: target position — FALSE today for boundary end points (D15d, C15_D15d_witness); triangle-mesh result — FALSE today for "
         "corner triangles collapsed towards an end point (D15e, C15_D15e_witness); one vertex left — FALSE for interior edges between two "
-        "boundary vertices (D15f, replayed by the check, no `decide` witness); flat triangle accepted (D15g, C15_D15g_witness)",
+        "boundary vertices (D15f, replayed by the check, no `decide` witness); a flat triangle at the resulting vertex used to be "
+        "accepted (former D15g, fixed in /repo 94962f9): now a theorem (C15_collapse_no_flat_triangle); the old witness is refused "
+        "(C15_D15g_regression, and the regression case `fixed-d15g-flat` of the check)",
         "anchors after cut / collapse (kept or lawfully merged): oracle only, except the second half of an outer cut "
         "(C15_cutOuter_second_half_anchored, every map; former D15b, /repo 27a7433); FALSE today in the case D15a (witness by `decide`)",
-        "cut: the midpoint at the new vertex's identifier in the FINAL map is a theorem for cut_outer_edge on arbitrary WF maps, any spare "
-        "numbering (C15_cut_midpoint_in_final_map; former D15c, /repo aac3ec9); for cut_inner_edge only the write step "
-        "(C15_cut_midpoint_under_vertex_id), `decide` on four numberings and the oracle",
-        "the beta-level theorems assume the darts around the edge pairwise distinct (genuine, different triangles; spare darts distinct "
-        "from them) and closed faces; the cuts additionally that the face IS a triangle (the cut kernels do not test it)",
+        "cut: the midpoint at the new vertex's identifier in the FINAL map is a theorem on arbitrary WF maps, any spare numbering, for "
+        "cut_outer_edge (C15_cut_midpoint_in_final_map; former D15c, /repo aac3ec9) and for cut_inner_edge "
+        "(C15_cutInner_midpoint_in_final_map: end points different vertices, spare darts without vertex value, Vertex2 law)",
+        "the beta-level theorems assume the darts around the edge pairwise distinct (C15_six_distinct derives the six of the two "
+        "triangles from `not loops, different faces`; spare darts / neighbours' darts distinct from them is assumed) and closed faces; "
+        "the cuts additionally that the face IS a triangle (the cut kernels do not test it)",
     ],
 }
 
@@ -237,6 +250,9 @@ def oracle_c15(case, li):
         return None
     if case.oracle != "c15":
         return None
+    exp = (case.meta or {}).get("expect")
+    if exp and (exp[0] >= len(li) or li[exp[0]] != exp[1]):
+        return f"line {exp[0]} {case.lines[exp[0]]!r}: expected {exp[1]!r}, got {li[exp[0]] if exp[0] < len(li) else None!r}"
     for i, op, before, res, after, wfline in windows(case.lines, li):
         k = (op["kind"], "retry" if res == "retry" else "other")
         if res == "retry" and remesh.in_guard(before, op):
@@ -566,7 +582,9 @@ def directed():
         mk("d15d-2x2-cut", ["grid 2 1 0 ncl 0 0 2 2 1 1", "add 6", "cutin 5 25 26 27 28 29 30"], "collapse 26", "D15d"),
         mk("d15e-unit-square", unit_a, "collapse 5", "D15e"),
         mk("d15f-pinch", D15F_HISTORY, "collapse 8", "D15f"),
-        mk("d15g-flat", D15G_PRE, "collapse 5", "D15g"),
+        # former finding D15g (fixed in /repo 94962f9): the collapse that would flatten a triangle is refused
+        Case("fixed-d15g-flat", D15G_PRE + ["snap", "collapse 5", "snap", "wf"], oracle="c15",
+             meta={"sig": "fixed-D15g", "expect": (len(D15G_PRE) + 1, "err InvertedOrientation")}),
     ]
 
 
@@ -575,7 +593,6 @@ def directed():
 def run(tier, seed):
     rng = random.Random(seed)
     NOTES.clear()
-    remesh.DEGENERATE[0] = 0
     parts = []
     parts.append(("directed (smallest witnesses of the listed findings; fixed findings as regression cases)", hv.campaign(directed(), oracle_c15, max_report=10)))
     r1 = hv.campaign(every_edge(tier, rng), oracle_c15, max_report=100)
@@ -594,11 +611,6 @@ def run(tier, seed):
     res["stats"]["history_ops"] = r2["stats"]["history_ops"]
     res["stats"]["history_max_ops"] = r2["stats"]["history_max_ops"]
     res.setdefault("notes", []).extend(SPEC["notes"])
-    if remesh.DEGENERATE[0]:
-        res.setdefault("notes", []).append(
-            f"{remesh.DEGENERATE[0]} successful collapses on inputs that already had a flat or inverted triangle at an end point (vertices "
-            "moved by D9 earlier in the history) left a zero-area triangle at the new vertex: outside the guard, not judged (the same "
-            "outcome on strictly oriented inputs is finding D15g)")
     if NOTES:
         res.setdefault("notes", []).append(
             "calls inside the guard answered `retry` (not successes; map unchanged; in atomically_with_err they would wait forever): "
